@@ -59,6 +59,10 @@ def check_cut(case):
     cut = case['cut']
     data = bytes(stream[:cut])
     a, b = socket.socketpair()
+    if case.get('conn_timeout'):
+        # the connection handed to the port was made with a timeout (socket.create_connection(addr, timeout=...)):
+        # an idle poll still returns at once and nothing but a disconnect ends the port
+        a.settimeout(case['conn_timeout'])
     if case.get('bigbuf'):
         # room for the whole session in the kernel, so that everything is waiting before the first receive call
         b.setsockopt(socket.SOL_SOCKET, socket.SO_SNDBUF, 1 << 22)
@@ -74,6 +78,12 @@ def check_cut(case):
             pos = 0
             bounds = sorted(set(min(x, len(data)) for x in case.get('segs', [])) | {len(data)})
             polls = set(case.get('polls', []))
+            if case.get('conn_timeout'):
+                t0 = time.time()
+                idle = port.poll()
+                if idle is not None or time.time() - t0 > max(0.15, case['conn_timeout'] / 2):
+                    out.append(fail('idle-poll', f'poll() on an idle connection with a {case["conn_timeout"]} s timeout returned '
+                                                 f'{idle!r} after {time.time() - t0:.2f} s', drain='poll'))
             for i, end in enumerate(bounds):
                 if end > pos:
                     b.sendall(data[pos:end])
@@ -704,6 +714,11 @@ def main(ctx):
                    'timeout': 120.0, 'bigbuf': True}, classes=('volume',), sample=False)
     for case in brokenpipe_cases():
         ctx.check(case, classes=('broken-pipe',), sample=False)
+    tmsgs = [{'type': 'note_on', 'channel': 0, 'note': i, 'velocity': 9, 'time': 0} for i in range(3)]
+    for drain in ('iterate', 'poll', 'iter_pending', 'receive'):
+        for cut in (0, 4, 9):
+            ctx.check({'kind': 'cut', 'msgs': tmsgs, 'cut': cut, 'segs': [3], 'polls': [0, 1], 'drain': drain,
+                       'conn_timeout': 0.6}, classes=('connection-with-timeout',), sample=False)
     for how in ('iterate', 'receive'):
         for n in (0, 2):
             ctx.check({'kind': 'close-while-receiving', 'how': how,
